@@ -282,7 +282,7 @@ def run(ctx) -> list[Inst]:
             rel = f.module.relpath
             flagged.add(f.qname)
             name = f.short
-            props = tuple(dict.fromkeys(props_for(f.short, rel) + ('C16',)))
+            props = tuple(dict.fromkeys(props_for(f.short, rel) + ('C16', 'C03')))
         else:
             rel = item[3].relpath
             name = item[3].modname
